@@ -13,7 +13,7 @@ RULE = "exhaustive token-alphabet strings per entry point + Hypothesis random Un
 ASSUMPTIONS = [
     "documented outcomes: Color.parse -> value | ColorParseError; Style.parse -> value | StyleSyntaxError; markup.render / Text.from_markup -> value | MarkupError; "
     "Console.get_style -> value | MissingStyle; AnsiDecoder.decode, Text(s) (+ printing it), Console.print(s, markup=False) -> no exception",
-    "valid options for trees: documented types and ranges (paddings >= 0, widths >= 1, ratio >= 1, leading >= 0, columns added before rows); __rich__ casts are one level deep",
+    "valid options for trees: documented types and ranges (paddings >= 0, widths >= 1, ratio >= 0, leading >= 0, columns added before rows; a table may have no columns); __rich__ casts are one level deep",
     "non-termination is detected without a timer: a counting Console caps render() invocations per case",
     "strings are surrogate-free",
 ]
@@ -229,17 +229,108 @@ def syntax_leaf():
                      code, st.booleans(), st.one_of(st.none(), st.tuples(st.integers(1, 9), st.integers(1, 12)).map(lambda t: [min(t), max(t)])), st.booleans(), st.booleans())
 
 
+def markdown_leaf():
+    word = st.sampled_from(["alpha", "beta", "x", "漢字", "a_b", "1.", "#", "<b>", "&amp;", "[bold]", "`"])
+    dest = st.sampled_from(["screenshot.png", "", "/", "a/b.png", "https://e.example/img/logo.svg", "https://e.example/", "dir/", "//", "x y"])
+    inline = st.one_of(
+        word, word, word.map(lambda w: "*%s*" % w), word.map(lambda w: "**%s**" % w), word.map(lambda w: "`%s`" % w),
+        st.tuples(word, dest).map(lambda t: "[%s](%s)" % t), st.tuples(st.one_of(st.just(""), word), dest).map(lambda t: "![%s](%s)" % t), st.just("  \n"), st.just("\\\n"),
+    )
+    para = st.lists(inline, min_size=1, max_size=6).map(" ".join)
+    block = st.one_of(
+        para, para,
+        st.tuples(st.integers(1, 6), para).map(lambda t: "#" * t[0] + " " + t[1]),
+        st.lists(para, min_size=1, max_size=3).map(lambda ps: "\n".join("- " + x for x in ps)),
+        st.lists(para, min_size=1, max_size=3).map(lambda ps: "\n".join("%d. %s" % (i + 1, x) for i, x in enumerate(ps))),
+        st.tuples(para, para).map(lambda t: "- %s\n    - %s\n    - %s" % (t[0], t[1], t[0])),
+        para.map(lambda x: "> " + x), st.tuples(para, para).map(lambda t: "> %s\n>\n> - %s" % t),
+        st.tuples(st.sampled_from(["", "python", "nosuchlang", "text"]), st.lists(st.sampled_from(["x = 1", "", "\tif a:", "漢字 = '[bold]'"]), max_size=3)).map(lambda t: "```%s\n%s\n```" % (t[0], "\n".join(t[1]))),
+        st.lists(st.sampled_from(["code", "", "  more"]), min_size=1, max_size=3).map(lambda ls: "\n".join("    " + x for x in ls)),
+        st.sampled_from(["---", "***", "<div>raw html</div>", "<!-- c -->", "Title\n=====", "Sub\n---", "", "&nbsp;", "\\*not em\\*"]),
+    )
+    return st.builds(lambda bs, hl, js, cw: {"k": "markdown", "src": "\n\n".join(bs), "hyperlinks": hl, "justify": js, "code_theme": cw},
+                     st.lists(block, max_size=5), st.booleans(), st.sampled_from([None, None, "left", "center", "right", "full"]), st.sampled_from(["monokai", "default"]))
+
+
+def pretty_leaf():
+    lf = st.one_of(st.integers(-5, 10**9), st.sampled_from(["", "a", "漢字" * 4, "x" * 40, "q'\"\n"]), st.none(), st.booleans(), st.floats(allow_nan=False, allow_infinity=False, width=32))
+    val = st.recursive(lf, lambda k: st.one_of(st.lists(k, max_size=4), st.lists(k, max_size=3).map(tuple), st.dictionaries(st.sampled_from(["k", "key2", 3]), k, max_size=3)), max_leaves=12)
+    return st.builds(lambda v, ind, ig, ml, ms, ea, mg, il, ov, nw: {"k": "pretty", "v": repr(v), "indent_size": ind, "indent_guides": ig, "max_length": ml, "max_string": ms, "expand_all": ea, "margin": mg,
+                                                             "insert_line": il, "overflow": ov, "no_wrap": nw},
+                     val, st.integers(1, 8), st.booleans(), st.one_of(st.none(), st.integers(0, 5)), st.one_of(st.none(), st.integers(0, 10)), st.booleans(), st.integers(0, 10), st.booleans(),
+                     st.sampled_from([None, "crop", "fold", "ellipsis", "ignore"]), st.sampled_from([None, False, True]))
+
+
+def other_leaves():
+    from rich._spinners import SPINNERS
+
+    from rich._emoji_codes import EMOJI
+
+    names = sorted(SPINNERS)
+    emoji = st.builds(lambda n, sty: {"k": "emoji", "name": n, "style": sty}, st.sampled_from(sorted(EMOJI)[::97]), st.sampled_from(["none", "bold red"]))
+    spinner = st.builds(lambda n, t, tx, sp: {"k": "spinner", "name": n, "time": t, "text": tx, "speed": sp}, st.sampled_from(names), st.floats(0, 100, allow_nan=False), st.sampled_from(["", "working [bold]hard[/]", "漢字 " * 5]),
+                        st.sampled_from([1.0, 0.5, 3.0]))
+    return st.one_of(emoji, spinner)
+
+
+def _build_markdown(n):
+    from rich.markdown import Markdown
+
+    return Markdown(n["src"], hyperlinks=n["hyperlinks"], justify=n["justify"], code_theme=n["code_theme"])
+
+
+def _build_pretty(n):
+    from rich.pretty import Pretty
+
+    return Pretty(eval(n["v"], {"__builtins__": {}}), indent_size=n["indent_size"], indent_guides=n["indent_guides"], max_length=n["max_length"], max_string=n["max_string"], expand_all=n["expand_all"],
+                  margin=n["margin"], insert_line=n["insert_line"], overflow=n["overflow"], no_wrap=n["no_wrap"])
+
+
+def _build_emoji(n):
+    from rich.emoji import Emoji
+
+    return Emoji(n["name"], style=n["style"])
+
+
+class _SpinnerAt:
+    """A Spinner rendered at a fixed time (the console clock is not part of the case)."""
+
+    def __init__(self, n):
+        from rich.spinner import Spinner
+
+        self.spinner = Spinner(n["name"], text=n["text"], speed=n["speed"])
+        self.time = n["time"]
+
+    def __rich_console__(self, console, options):
+        yield self.spinner.render(self.time)
+
+    def __rich_measure__(self, console, max_width):
+        return self.spinner.__rich_measure__(console, max_width)
+
+
+def _build_syntax(n):
+    from rich.syntax import Syntax
+
+    return Syntax(n["code"], "python", line_numbers=n["line_numbers"], line_range=tuple(n["line_range"]) if n["line_range"] else None, word_wrap=n["word_wrap"])
+
+
+GT.EXTRA_BUILDERS.update({"markdown": _build_markdown, "pretty": _build_pretty, "emoji": _build_emoji, "spinner": _SpinnerAt, "syntax": _build_syntax})
+
+
 class Trees(Part):
     name = "trees"
     rule = ("trees as C01 but with the whole valid option space (column width/min_width/no_wrap, table width/min_width, overflow='ignore', "
-            "Panel/Align/Constrain/Columns/Bar widths, Syntax leaves with line ranges beyond the code) x W in 1..200: render(), print() and "
+            "Panel/Align/Constrain/Columns/Bar widths, tables without columns, ratio=0, Text/title tab_size incl. None and title overflow/no_wrap; leaves also Syntax (line ranges beyond the code), "
+            "Markdown (generated from a block/inline grammar incl. images without alt text, unknown fence languages, raw html), Pretty (all options), Emoji, Spinner (every name)) x W in 1..200: render(), print() and "
             "Measurement.get() return; non-trivial = W below the structural minimum or an explicit width option present")
-    budget = {"quick": (16, 150), "thorough": (16, 6000)}
+    budget = {"quick": (16, 450), "thorough": (16, 8000)}
     chunk = 150
 
     def strategy(self, tier):
         w = st.one_of(st.integers(1, 6), st.integers(1, 30), st.integers(1, 200))
-        wrap = st.one_of(GT.node(0, "any"), GT.node(0, "any"), st.builds(lambda s, p: {"k": "panel", "child": s, "box": "ROUNDED", "title": None, "title_align": "center", "expand": True, "padding": [0, 1], "width": None} if p else s, syntax_leaf(), st.booleans()))
+        extra = st.one_of(syntax_leaf(), markdown_leaf(), markdown_leaf(), pretty_leaf(), other_leaves())
+        wrap = st.one_of(GT.node(0, "any", extra=extra), GT.node(0, "any", extra=extra), GT.node(0, "any"), extra,
+                         st.builds(lambda s, p: {"k": "panel", "child": s, "box": "ROUNDED", "title": None, "title_align": "center", "expand": True, "padding": [0, 1], "width": None} if p else s, syntax_leaf(), st.booleans()))
         return st.builds(lambda t, w: {"tree": t, "W": w}, wrap, w)
 
     def check(self, spec, ctx):
@@ -248,19 +339,10 @@ class Trees(Part):
         tree = spec["tree"]
         W = spec["W"]
 
-        def build(n):
-            if n["k"] == "syntax":
-                from rich.syntax import Syntax
-
-                return Syntax(n["code"], "python", line_numbers=n["line_numbers"], line_range=tuple(n["line_range"]) if n["line_range"] else None, word_wrap=n["word_wrap"])
-            if n["k"] == "panel" and n["child"]["k"] == "syntax":
-                from rich.panel import Panel
-
-                return Panel(build(n["child"]))
-            return GT.build(n)
-
-        has_syntax = tree["k"] == "syntax" or (tree["k"] == "panel" and tree["child"]["k"] == "syntax")
-        smin = 1 if has_syntax else GT.struct_min(tree)
+        build = GT.build
+        kinds = GT.kinds_of(tree)
+        has_syntax = "syntax" in kinds
+        smin = GT.struct_min(tree)
         for what in ("render", "measure", "print"):
             con = counting_console(W)
             try:
@@ -278,15 +360,23 @@ class Trees(Part):
                 ctx.violation("termination", "C14/termination/%s" % tree["k"], "%s at W=%d: %s; tree=%r" % (what, W, e, tree))
                 return
             except Exception as e:  # noqa
-                ctx.violation("undocumented-exception", "C14/tree/%s" % bucket_of(e), "%s at W=%d raised %r; tree=%r" % (what, W, e, tree))
+                b = bucket_of(e)
+                if b == "AssertionError@_ratio.py:ratio_distribute" and "'ratio': 0" in repr(tree):
+                    b = "ratio0/" + b   # known finding F6: the width solver hands a zero-ratio column a negative width when space is short
+                ctx.violation("undocumented-exception", "C14/tree/%s" % b, "%s at W=%d raised %r; tree=%r" % (what, W, e, tree))
                 return
         explicit = "'width': " in repr(tree) and any(("'width': %d" % k) in repr(tree) for k in range(1, 81))
         if W < smin or explicit:
             ctx.nontrivial = True
         if W < smin:
             ctx.cls("below-structural-minimum")
-        if has_syntax:
-            ctx.cls("syntax")
+        for k in ("syntax", "markdown", "pretty", "emoji", "spinner"):
+            if k in kinds:
+                ctx.cls(k)
+        if "'cols': []" in repr(tree):
+            ctx.cls("table-without-columns")
+        if "'tab_size': None" in repr(tree):
+            ctx.cls("text-with-console-tab-size")
 
 
 class Fuzz(Part):
